@@ -33,6 +33,7 @@ MCClaimReqs ==
     [] Level = 12 -> {SM(2, "key", AndA)}
     [] Level = 13 -> {SE(1), SM(1, "key", NoF)}
     [] Level = 14 -> {PE(1, NoF, 11, "")}
+    [] Level = 18 -> {SM(1, "key", ResS)}                    \* guard order: a writer changes k1 while the walk has not reached it
     [] Level = 17 -> {SE(1)}                                \* the patcher fetched k1 before the claim shifted it out
     [] Level = 16 -> {SE(1)}                                \* a save of the oldest record is between delete and add
     [] Level = 15 -> {PE(1, NoF, 11, "c"), SE(1)}           \* the patch condition fails: ghost in the expiration index
@@ -45,6 +46,7 @@ MCClaimReqs ==
 MCIntOps ==
   CASE Level = 0 -> {Del(1), Patch(1, -1, "b", ""), Patch(1, 12, "", "")}
     [] Level \in {11, 13} -> {}
+    [] Level = 18 -> {Patch(1, -1, "", "c")}
     [] Level \in {12, 16, 17} -> {Patch(1, -1, "b", "")}
     [] Level \in {14, 15} -> {Del(1)}
     [] Level = 1 -> {Del(k) : k \in Keys} \cup {Patch(k, -1, "b", "") : k \in Keys} \cup {Patch(k, 12, "", "") : k \in Keys}
@@ -89,6 +91,19 @@ Busy(q) ==
   \/ pc[q] = "rx" /\ lock["expA"] = "" /\ lock["expD"] = ""     \* (pc "gap" = gate beacon.add.enter: interruptible)
 Moved(q) == pc'[q] # pc[q] \/ walk'[q] # walk[q] \/ todo'[q] # todo[q]
 Coarse == \A q \in Procs : Busy(q) => Moved(q)
+
+\* Scenario generator (not a property): a state in which a writer has changed the first record of a walk out of the
+\* claim's filter while the walker already holds the selection lock and has not visited that record yet.  TLC's
+\* shortest path to it is replayed with the writer parked at gate patchfields.guarded (it holds the record guard):
+\* the real walk must wait for the guard and judge the record in its new state.
+NotGuardScenario ==
+  ~(\E c \in Claimers, i \in Interferers :
+       /\ pc[c] = "walk" /\ 1 \in walk[c] /\ res[c] = <<>>
+       /\ req[i].kind = "patch" /\ pc[i] = "ret" /\ rec[1].st = "c")
+
+\* ... and the writer must already be inside its call (parked holding the guard) when the walker takes the lock
+GuardScenarioOrder ==
+  (\E c \in Claimers : pc[c] = "lock" /\ pc'[c] = "walk") => \A i \in Interferers : pc[i] = "do"
 
 \* every process makes at most one call at a time; the total number of calls is bounded
 Bounded == nops <= MaxOps
